@@ -19,6 +19,8 @@
 import SeedProofs.Lemmas.C13Call
 import SeedProofs.Lemmas.C13Bind
 import SeedProofs.Lemmas.C14Scope
+import SeedProofs.Lemmas.C14This
+import SeedProofs.Lemmas.C14ThisPat
 namespace Seed.C14
 open Seed Gen
 
@@ -293,5 +295,589 @@ theorem this_is_source {σ : State} {a : Addr} {m : ScopeMap} {t : Val} {l : Loc
   rw [evalExpr, scopeGet_head_hit closure hs hl]
 
 example : scopeLookup c!"this" [(c!"this", SVal.plain (.obj 1), (1, 0))] = some (SVal.plain (.obj 1), (1, 0)) := by decide
+
+end Seed.C14
+
+/-! # End to end: the pieces composed through the evaluator
+
+  The theorems above are one evaluator step each.  Below they are composed through `evalCall` / `evalStmts` /
+  `evalBlock` / `declareAll` into statements about whole calls and small programs: which `evalBlock` instance a call
+  reduces to, and (`BodyThis`, Lemmas/C14This.lean) that in the state the body's statements start in the chain
+  `fresh parameter scope :: closure` resolves `this` to the stated object.  Fuel is explicit: sub-evaluations are
+  hypotheses at fuel `n` (by G1, `evalExpr_fuel_mono`, they hold at every larger fuel), the conclusion is an equation
+  at `n + c` whose right-hand side runs the callee's body at the fuel the evaluator really gives it.
+-/
+-- audit: Seed.bodyThis Seed.declareAll_this_last Seed.declareAll_vars Seed.scopeAssign_get Seed.scopeAssign_hit Seed.scopeAssign_of_get Seed.scopeGet_congr Seed.prop_read_src Seed.index_read_src Seed.declare_var_stmt Seed.assign_var_stmt Seed.func_stmt Seed.evalCall_func_ok Seed.call_stmt_then Seed.getFunc_after_items Seed.getFunc_after_expr Seed.callPlainVals_length_ge Seed.callPlainVals_heap_old
+-- audit: Seed.freeAll Seed.freeAll_succ Seed.freeAll_zero Seed.bindNextName_free Seed.scopeAssign_free Seed.applyBinOp_free Seed.callBuiltin_free Seed.opAssignValue_free Seed.declareAll_keeps_free Seed.body_without_this Seed.not_mem_bindingsVars_zip
+namespace Seed.C14
+open Seed Gen
+
+/-! ## end to end: `this` is the object the function was read from, for this call -/
+
+/-- **`o.name(args)`.**  Arguments first (`σ → σ1`), then `o` (`σ1 → σ2`, an object `a`); if `a`'s property `name` holds
+    a user function `fa` — *stored with any source `s`*, e.g. a method borrowed from another object — and the count
+    fits, the call is the body of `fa` run with the binding list ending in `this := a`: `this` is the object the
+    function was read from for THIS call, not the one it was defined in or stored with. -/
+theorem method_call_this {n : Nat} {σ σ1 σ2 : State} {sc : List Addr} {o : Expr} {args : List ListItem}
+    {argVals : List SVal} {ov : SVal} {a fa : Addr} {m : ObjMap} {name : List Char} {s : Option Val} {fr : FuncRec}
+    (l loc : Loc)
+    (hargs : evalListItems (n + 1) σ sc args [] = .ok argVals σ1)
+    (ho : evalExpr n σ1 sc o = .ok ov σ2) (hov : ov.v = .obj a)
+    (hm : σ2.getObj a = some m) (hk : objGet name m = some ⟨.func fa, s⟩)
+    (hfr : σ2.getFunc fa = some fr) (hok : arityOk fr.collect fr.args.length argVals.length = true) :
+    evalCall (n + 2) σ sc (.mk (.Prop o name false) l) args loc =
+      ((evalBlock (n + 1) (callPlainVals σ2 fr argVals).2 fr.closure
+          (callBindings fr (callPlainVals σ2 fr argVals).1 (some (.obj a)) loc) fr.stmts).mapErr
+        (Err.funcCall fr.name loc)).bind finishCall ∧
+    BodyThis (callPlainVals σ2 fr argVals).2 fr (callPlainVals σ2 fr argVals).1 (some (.obj a)) loc (.obj a) :=
+  ⟨evalCall_func_ok loc hargs (prop_read_src l ho hov hm hk) rfl hfr hok, bodyThis _ _ _ _ _⟩
+
+/-- **`o[key](args)`**, for any key expression `ke` that evaluates to the string `name` -/
+theorem method_call_this_index {n : Nat} {σ σ1 σ2 σ3 : State} {sc : List Addr} {o ke : Expr} {args : List ListItem}
+    {argVals : List SVal} {ov : SVal} {a fa : Addr} {m : ObjMap} {name : List Char} {s : Option Val} {fr : FuncRec}
+    (l loc : Loc)
+    (hargs : evalListItems (n + 1) σ sc args [] = .ok argVals σ1)
+    (ho : evalExpr n σ1 sc o = .ok ov σ2) (hov : ov.v = .obj a)
+    (hke : evalToStr n σ2 sc c!"property" ke = .ok name σ3)
+    (hm : σ3.getObj a = some m) (hk : objGet name m = some ⟨.func fa, s⟩)
+    (hfr : σ3.getFunc fa = some fr) (hok : arityOk fr.collect fr.args.length argVals.length = true) :
+    evalCall (n + 2) σ sc (.mk (.Index o ke) l) args loc =
+      ((evalBlock (n + 1) (callPlainVals σ3 fr argVals).2 fr.closure
+          (callBindings fr (callPlainVals σ3 fr argVals).1 (some (.obj a)) loc) fr.stmts).mapErr
+        (Err.funcCall fr.name loc)).bind finishCall ∧
+    BodyThis (callPlainVals σ3 fr argVals).2 fr (callPlainVals σ3 fr argVals).1 (some (.obj a)) loc (.obj a) :=
+  ⟨evalCall_func_ok loc hargs (index_read_src l ho hov hke hm hk) rfl hfr hok, bodyThis _ _ _ _ _⟩
+
+/-- calling through a variable: the source stored with the variable's value becomes `this` -/
+theorem call_var_this {n : Nat} {σ σ1 : State} {sc : List Addr} {h : List Char} {args : List ListItem}
+    {argVals : List SVal} {fa : Addr} {t : Val} {fr : FuncRec} (lh loc : Loc)
+    (hargs : evalListItems (n + 1) σ sc args [] = .ok argVals σ1)
+    (hh : scopeGet σ1 sc h = some ⟨.func fa, some t⟩)
+    (hfr : σ1.getFunc fa = some fr) (hok : arityOk fr.collect fr.args.length argVals.length = true) :
+    evalCall (n + 2) σ sc (.mk (.Var h) lh) args loc =
+      ((evalBlock (n + 1) (callPlainVals σ1 fr argVals).2 fr.closure
+          (callBindings fr (callPlainVals σ1 fr argVals).1 (some t) loc) fr.stmts).mapErr
+        (Err.funcCall fr.name loc)).bind finishCall ∧
+    BodyThis (callPlainVals σ1 fr argVals).2 fr (callPlainVals σ1 fr argVals).1 (some t) loc t :=
+  ⟨evalCall_func_ok loc hargs (src_preserved_var lh hh) rfl hfr hok, bodyThis _ _ _ _ _⟩
+
+/-- **`h := o.name; h(args); rest`.**  The call binds `this` to the object `a` that `o` evaluated to at the time of the
+    READ (first statement).  Between the read and the call only the argument list runs; whatever it does (reassign
+    `o`, replace `o.name`, …), as long as `h` still resolves to the value read (`hstill`, automatic for arguments
+    without effects) `this` is `a`. -/
+theorem stored_method_keeps_this_var {n : Nat} {σ σ1 σ3 : State} {A0 : Addr} {sc' : List Addr} {o : Expr}
+    {args : List ListItem} {argVals : List SVal} {ov : SVal} {a fa : Addr} {m : ObjMap} {ms : ScopeMap}
+    {name h : List Char} {s : Option Val} {fr : FuncRec} (lh lp lh2 lc : Loc) (rest : List Stmt)
+    (ho : evalExpr n σ (A0 :: sc') o = .ok ov σ1) (hov : ov.v = .obj a)
+    (hm : σ1.getObj a = some m) (hk : objGet name m = some ⟨.func fa, s⟩)
+    (hh : h ≠ c!"_") (hs : σ1.getScope A0 = some ms) (hfresh : scopeLookup h ms = none)
+    (hargs : evalListItems (n + 1) (σ1.set A0 (.scope ((h, ⟨.func fa, some (.obj a)⟩, lh) :: ms))) (A0 :: sc') args [] =
+      .ok argVals σ3)
+    (hstill : scopeGet σ3 (A0 :: sc') h = some ⟨.func fa, some (.obj a)⟩)
+    (hfr : σ3.getFunc fa = some fr) (hok : arityOk fr.collect fr.args.length argVals.length = true) :
+    evalStmts (n + 6) σ (A0 :: sc')
+        (.Declare (.mk (.Var h) lh) (.mk (.Prop o name false) lp) ::
+         .Expr (.mk (.Call (.mk (.Var h) lh2) args) lc) :: rest) =
+      ((((evalBlock (n + 1) (callPlainVals σ3 fr argVals).2 fr.closure
+            (callBindings fr (callPlainVals σ3 fr argVals).1 (some (.obj a)) lc) fr.stmts).mapErr
+          (Err.funcCall fr.name lc)).bind finishCall).bind fun _ σ5 => evalStmts (n + 4) σ5 (A0 :: sc') rest) ∧
+    BodyThis (callPlainVals σ3 fr argVals).2 fr (callPlainVals σ3 fr argVals).1 (some (.obj a)) lc (.obj a) := by
+  refine ⟨?_, bodyThis _ _ _ _ _⟩
+  have hd := declare_var_stmt lh (prop_read_src lp ho hov hm hk) hh hs hfresh
+  rw [evalStmts_cons_ok _ (evalStmt_mono hd (by simp) (by omega : n + 2 ≤ n + 5)), call_stmt_then,
+    (call_var_this lh2 lc hargs hstill hfr hok).1]
+
+
+/-- the state in which the body of `fn ap(f) { … }` starts when it is called from `σ2` with the one argument `v`:
+    a fresh scope cell (address `σ2.heap.size`) holding `f ↦ v` -/
+def apEntry (σ2 : State) (f : List Char) (lf : Loc) (v : SVal) : State :=
+  (σ2.alloc (.scope [])).2.set σ2.heap.size (.scope [(f, v, lf)])
+
+/-- **`ap(o.name)` with `fn ap(f) { return f(); }`** (`ap`: any plain function value with exactly that shape).  Inside
+    `ap` the call `f()` runs the body of `fa` with `this :=` the object `o` evaluated to when the argument was read;
+    the result of the whole call is the result of that inner call, its error wrapped in `ap`'s frame. -/
+theorem stored_method_keeps_this_arg {n : Nat} {σ σ1 σ2 : State} {sc clo : List Addr} {o g : Expr} {ov : SVal}
+    {a fa pa : Addr} {m : ObjMap} {name f : List Char} {s : Option Val} {fr : FuncRec} {apName : Option (List Char)}
+    (lf lr lf2 lc2 lp loc : Loc)
+    (ho : evalExpr n σ sc o = .ok ov σ1) (hov : ov.v = .obj a)
+    (hm : σ1.getObj a = some m) (hk : objGet name m = some ⟨.func fa, s⟩)
+    (hg : evalExpr n σ1 sc g = .ok ⟨.func pa, none⟩ σ2)
+    (hap : σ2.getFunc pa =
+      some ⟨apName, [.mk (.Var f) lf], false, [.Return lr (.mk (.Call (.mk (.Var f) lf2) []) lc2)], clo⟩)
+    (hf : f ≠ c!"_") (hfr : σ2.getFunc fa = some fr) (hok : arityOk fr.collect fr.args.length 0 = true) :
+    evalCall (n + 6) σ sc g [.mk (.mk (.Prop o name false) lp) false] loc =
+      (((evalBlock n (callPlainVals (apEntry σ2 f lf ⟨.func fa, some (.obj a)⟩) fr []).2 fr.closure
+            (callBindings fr (callPlainVals (apEntry σ2 f lf ⟨.func fa, some (.obj a)⟩) fr []).1 (some (.obj a)) lc2)
+            fr.stmts).mapErr
+          (Err.funcCall fr.name lc2)).bind finishCall).mapErr (Err.funcCall apName loc) ∧
+    BodyThis (callPlainVals (apEntry σ2 f lf ⟨.func fa, some (.obj a)⟩) fr []).2 fr
+      (callPlainVals (apEntry σ2 f lf ⟨.func fa, some (.obj a)⟩) fr []).1 (some (.obj a)) lc2 (.obj a) := by
+  refine ⟨?_, bodyThis _ _ _ _ _⟩
+  obtain ⟨k, rfl⟩ := evalExpr_ok_pos ho
+  have hsA : (σ2.alloc (.scope [])).2.getScope σ2.heap.size = some [] := getScope_eq_some.mpr (σ2.alloc_heap_new _)
+  -- the inner call `f()` in the body of `ap`
+  have hfr3 : (apEntry σ2 f lf ⟨.func fa, some (.obj a)⟩).getFunc fa = some fr :=
+    funcsStable_good.setScope _ _ [] _ hsA fa fr (funcsStable_good.alloc σ2 _ fa fr hfr)
+  have hcall := evalCall_func_ok lc2
+    (evalListItems_nil k (apEntry σ2 f lf ⟨.func fa, some (.obj a)⟩) (σ2.heap.size :: clo) [])
+    (src_preserved_var (n := k) lf2 (scopeGet_declared clo f ⟨.func fa, some (.obj a)⟩ lf hsA)) rfl hfr3 hok
+  suffices H : ∀ X : Res SVal,
+      evalCall (k + 2) (apEntry σ2 f lf ⟨.func fa, some (.obj a)⟩) (σ2.heap.size :: clo) (.mk (.Var f) lf2) [] lc2 = X →
+      evalCall (k + 1 + 6) σ sc g [.mk (.mk (.Prop o name false) lp) false] loc = X.mapErr (Err.funcCall apName loc) from
+    H _ hcall
+  intro X hX
+  -- the argument list `[o.name]`
+  have hread := prop_read_src lp (evalExpr_fuel_mono ho (by simp) (by omega : k + 1 ≤ k + 4)) hov hm hk
+  have hargs : evalListItems (k + 6) σ sc [.mk (.mk (.Prop o name false) lp) false] [] =
+      .ok [⟨.func fa, some (.obj a)⟩] σ1 := by
+    rw [evalListItems_cons_plain, hread]
+    simp only [Res.bind]
+    rw [evalListItems_nil]; rfl
+  -- the call of `ap`: its parameter scope, then its body `return f();`
+  rw [evalCall_func_ok loc hargs (evalExpr_fuel_mono hg (by simp) (by omega : k + 1 ≤ k + 6)) rfl hap (by rfl)]
+  rw [callPlainVals_no_rest _ rfl]
+  simp only [callBindings, List.zip_cons_cons, List.zip_nil_left]
+  rw [evalBlock_succ, declareAll_cons, bindNext_var,
+    bindNextName_declare lf _ hf (by simp) hsA (by rfl)]
+  simp only [Res.bind]
+  rw [declareAll_nil]
+  simp only []
+  rw [evalStmts_cons, evalStmt, evalExpr]
+  show ((((evalCall (k + 2) (apEntry σ2 f lf ⟨.func fa, some (.obj a)⟩) (σ2.heap.size :: clo) (.mk (.Var f) lf2) [] lc2).bind
+    _).bind _).mapErr _).bind _ = _
+  rw [hX]
+  cases X <;> rfl
+
+
+/-- the state after `xs := [v]` in a state `σ1` whose innermost scope cell `A0` holds `ms`: a new list cell (address
+    `σ1.heap.size`) holding `[v]`, and `xs ↦` that list -/
+def listDeclared (σ1 : State) (A0 : Addr) (xs : List Char) (lx : Loc) (ms : ScopeMap) (v : SVal) : State :=
+  (σ1.alloc (.list [v])).2.set A0 (.scope ((xs, SVal.plain (.list σ1.heap.size), lx) :: ms))
+
+/-- **`xs := [o.name]; xs[ix](args); rest`.**  The list element carries the source: if after the arguments and the index
+    the list built by the first statement (cell `σ1.heap.size`) still holds the value at position `i`, the call binds
+    `this` to the object `o` evaluated to at the time of the read. -/
+theorem stored_method_keeps_this_list {n : Nat} {σ σ1 σ3 σ4 : State} {A0 : Addr} {sc' : List Addr} {o ix : Expr}
+    {args : List ListItem} {argVals : List SVal} {ov : SVal} {a fa : Addr} {m : ObjMap} {ms : ScopeMap}
+    {name xs : List Char} {s sx : Option Val} {fr : FuncRec} {i : Nat} {items : List SVal}
+    (lx ll lp lx2 li lc : Loc) (rest : List Stmt)
+    (ho : evalExpr n σ (A0 :: sc') o = .ok ov σ1) (hov : ov.v = .obj a)
+    (hm : σ1.getObj a = some m) (hk : objGet name m = some ⟨.func fa, s⟩)
+    (hxs : xs ≠ c!"_") (hs : σ1.getScope A0 = some ms) (hfresh : scopeLookup xs ms = none)
+    (hargs : evalListItems (n + 1) (listDeclared σ1 A0 xs lx ms ⟨.func fa, some (.obj a)⟩) (A0 :: sc') args [] =
+      .ok argVals σ3)
+    (hstill : scopeGet σ3 (A0 :: sc') xs = some ⟨.list σ1.heap.size, sx⟩)
+    (hix : evalToIndex n σ3 (A0 :: sc') ix = .ok i σ4)
+    (hl : σ4.getList σ1.heap.size = some items) (hi : items[i]? = some ⟨.func fa, some (.obj a)⟩)
+    (hfr : σ4.getFunc fa = some fr) (hok : arityOk fr.collect fr.args.length argVals.length = true) :
+    evalStmts (n + 6) σ (A0 :: sc')
+        (.Declare (.mk (.Var xs) lx) (.mk (.List [.mk (.mk (.Prop o name false) lp) false] false) ll) ::
+         .Expr (.mk (.Call (.mk (.Index (.mk (.Var xs) lx2) ix) li) args) lc) :: rest) =
+      ((((evalBlock (n + 1) (callPlainVals σ4 fr argVals).2 fr.closure
+            (callBindings fr (callPlainVals σ4 fr argVals).1 (some (.obj a)) lc) fr.stmts).mapErr
+          (Err.funcCall fr.name lc)).bind finishCall).bind fun _ σ5 => evalStmts (n + 4) σ5 (A0 :: sc') rest) ∧
+    BodyThis (callPlainVals σ4 fr argVals).2 fr (callPlainVals σ4 fr argVals).1 (some (.obj a)) lc (.obj a) := by
+  refine ⟨?_, bodyThis _ _ _ _ _⟩
+  -- `[o.name]`
+  have hlist : evalExpr (n + 3) σ (A0 :: sc') (.mk (.List [.mk (.mk (.Prop o name false) lp) false] false) ll) =
+      .ok (SVal.plain (.list σ1.heap.size)) (σ1.alloc (.list [⟨.func fa, some (.obj a)⟩])).2 := by
+    rw [evalExpr]
+    simp only [Bool.false_eq_true, if_false]
+    rw [evalListItems_cons_plain, prop_read_src lp ho hov hm hk]
+    simp only [Res.bind]
+    rw [evalListItems_nil]; rfl
+  have hs' : (σ1.alloc (.list [⟨.func fa, some (.obj a)⟩])).2.getScope A0 = some ms := by
+    rw [getScope_eq_some] at hs ⊢
+    rw [σ1.alloc_heap_old _ (heap_lt_of_some hs)]; exact hs
+  have hd := declare_var_stmt lx hlist hxs hs' hfresh
+  -- `xs[ix]`
+  have hvar : evalExpr n σ3 (A0 :: sc') (.mk (.Var xs) lx2) = .ok ⟨.list σ1.heap.size, sx⟩ σ3 := by
+    obtain ⟨k, hk'⟩ := evalExpr_ok_pos ho
+    rw [hk']; exact src_preserved_var lx2 hstill
+  have hcallee : evalExpr (n + 1) σ3 (A0 :: sc') (.mk (.Index (.mk (.Var xs) lx2) ix) li) =
+      .ok ⟨.func fa, some (.obj a)⟩ σ4 :=
+    src_preserved_list_index hvar hix hl hi
+  unfold listDeclared at hargs
+  rw [evalStmts_cons_ok _ (evalStmt_mono hd (by simp) (by omega : n + 2 + 2 ≤ n + 5)), call_stmt_then,
+    evalCall_func_ok lc hargs hcallee rfl hfr hok]
+
+/-! ## a function value that was never read from an object -/
+
+/-- **A function value with no source** (`src = none`: the value of a `fn` statement's name, `fn_stmt_value_has_no_source`,
+    or of a function literal, `literal_src_none`, moved along variables, arguments, list elements) **is called without a
+    `this` binding**: the binding list is just parameters × values, declared into the fresh cell on top of the closure
+    chain.  So — unless a parameter pattern itself binds the name `this` (`fn f([this]) …` does, see the example) —
+    whenever the parameters can be bound, `this` resolves through the closure chain only in the state the body starts
+    in: it is an enclosing function's `this`, or `'this' is not defined`.  Parameters may be arbitrary patterns
+    (`patVars`: the names a pattern binds; Lemmas/C14ThisPat.lean shows over the whole evaluator that evaluating the
+    expressions inside a pattern never declares into the cell). -/
+theorem plain_function_has_no_this {n : Nat} {σ σ1 σ2 : State} {sc : List Addr} {f : Expr} {args : List ListItem}
+    {argVals : List SVal} {fa : Addr} {fr : FuncRec} (loc : Loc)
+    (hargs : evalListItems n σ sc args [] = .ok argVals σ1)
+    (hf : evalExpr n σ1 sc f = .ok ⟨.func fa, none⟩ σ2)
+    (hfr : σ2.getFunc fa = some fr) (hok : arityOk fr.collect fr.args.length argVals.length = true) :
+    evalCall (n + 1) σ sc f args loc =
+      ((evalBlock n (callPlainVals σ2 fr argVals).2 fr.closure (fr.args.zip (callPlainVals σ2 fr argVals).1)
+          fr.stmts).mapErr (Err.funcCall fr.name loc)).bind finishCall ∧
+    (∀ k, evalBlock (k + 1) (callPlainVals σ2 fr argVals).2 fr.closure (fr.args.zip (callPlainVals σ2 fr argVals).1)
+        fr.stmts =
+      (declareAll k ((callPlainVals σ2 fr argVals).2.alloc (.scope [])).2
+          ((callPlainVals σ2 fr argVals).2.heap.size :: fr.closure) (fr.args.zip (callPlainVals σ2 fr argVals).1)).bind
+        fun _ σb => evalStmts k σb ((callPlainVals σ2 fr argVals).2.heap.size :: fr.closure) fr.stmts) ∧
+    ((∀ p ∈ fr.args, c!"this" ∉ patVars p) → ∀ k σb,
+      declareAll k ((callPlainVals σ2 fr argVals).2.alloc (.scope [])).2
+          ((callPlainVals σ2 fr argVals).2.heap.size :: fr.closure) (fr.args.zip (callPlainVals σ2 fr argVals).1) =
+        .ok () σb →
+      scopeGet σb ((callPlainVals σ2 fr argVals).2.heap.size :: fr.closure) c!"this" = scopeGet σb fr.closure c!"this" ∧
+      (scopeGet σb fr.closure c!"this" = none → ∀ j l,
+        evalExpr (j + 1) σb ((callPlainVals σ2 fr argVals).2.heap.size :: fr.closure) (.mk (.Var c!"this") l) =
+          errAt l (Leaf.Undefined c!"this") σb) ∧
+      (∀ w, scopeGet σb fr.closure c!"this" = some w → ∀ j l,
+        evalExpr (j + 1) σb ((callPlainVals σ2 fr argVals).2.heap.size :: fr.closure) (.mk (.Var c!"this") l) =
+          .ok w σb)) :=
+  ⟨evalCall_func_ok loc hargs hf rfl hfr hok, fun k => evalBlock_succ k _ _ _ _,
+    fun hno _ _ h => body_without_this hno h⟩
+
+/-- the same for the common case of plain parameter names (pairwise different, none `_`, none `this`), where more can
+    be said: the parameters can always be bound (at every fuel `≥ number of parameters + 2`), and `this` in the body's
+    initial state is what the closure chain had *at the call* (state `σ2`) -/
+theorem plain_function_plain_params {σ2 : State} {argVals : List SVal} {fr : FuncRec}
+    (hok : arityOk fr.collect fr.args.length argVals.length = true)
+    (vars : List (List Char × Loc)) (hvars : fr.args = varExprs vars) (hfreshrow : FreshRow [] [] vars)
+    (hnothis : ∀ p ∈ vars, p.1 ≠ c!"this") (hclo : ∀ b ∈ fr.closure, b < σ2.heap.size)
+    (k : Nat) (hk : vars.length + 2 ≤ k) :
+    ∃ σb,
+      evalBlock (k + 1) (callPlainVals σ2 fr argVals).2 fr.closure (fr.args.zip (callPlainVals σ2 fr argVals).1) fr.stmts =
+        evalStmts k σb ((callPlainVals σ2 fr argVals).2.heap.size :: fr.closure) fr.stmts ∧
+      scopeGet σb ((callPlainVals σ2 fr argVals).2.heap.size :: fr.closure) c!"this" = scopeGet σ2 fr.closure c!"this" ∧
+      (scopeGet σ2 fr.closure c!"this" = none → ∀ j l,
+        evalExpr (j + 1) σb ((callPlainVals σ2 fr argVals).2.heap.size :: fr.closure) (.mk (.Var c!"this") l) =
+          errAt l (Leaf.Undefined c!"this") σb) ∧
+      (∀ w, scopeGet σ2 fr.closure c!"this" = some w → ∀ j l,
+        evalExpr (j + 1) σb ((callPlainVals σ2 fr argVals).2.heap.size :: fr.closure) (.mk (.Var c!"this") l) =
+          .ok w σb) := by
+  generalize hσ3 : (callPlainVals σ2 fr argVals).2 = σ3
+  generalize hpv : (callPlainVals σ2 fr argVals).1 = pv
+  have hlen : vars.length ≤ pv.length := by
+    have := callPlainVals_length_ge (σ := σ2) hok
+    rw [hpv, hvars] at this
+    simpa [varExprs] using this
+  have hsA : (σ3.alloc (.scope [])).2.getScope σ3.heap.size = some [] := getScope_eq_some.mpr (σ3.alloc_heap_new _)
+  obtain ⟨d, rfl⟩ : ∃ d, k = vars.length + 2 + d := ⟨k - (vars.length + 2), by omega⟩
+  obtain ⟨σb, mb, hdecl, hsb, _, hother, hheap⟩ :=
+    declareAll_vars fr.closure vars (pv.take vars.length) d hsA hfreshrow (by simp; omega)
+  have hzip : fr.args.zip pv = (varExprs vars).zip (pv.take vars.length) := by
+    rw [hvars, zip_take_left]; simp [varExprs]
+  have hthis : scopeLookup c!"this" mb = none := by rw [hother _ hnothis]; rfl
+  have hcl : scopeGet σb fr.closure c!"this" = scopeGet σ2 fr.closure c!"this" := by
+    apply scopeGet_congr
+    intro b hb
+    have hb2 : b < σ2.heap.size := hclo b hb
+    have h3 := callPlainVals_heap_old (σ := σ2) (fr := fr) argVals hb2
+    rw [hσ3] at h3
+    have hb3 : b < σ3.heap.size := Nat.lt_of_lt_of_le hb2 h3.2
+    rw [hheap b (Nat.ne_of_lt hb3), σ3.alloc_heap_old _ hb3, h3.1]
+  have hget := (this_absent fr.closure 0 (0, 0) hsb hthis).1
+  refine ⟨σb, ?_, hget.trans hcl, ?_, ?_⟩
+  · rw [evalBlock_succ, hzip, hdecl]; rfl
+  · intro hnone j l
+    exact (this_absent fr.closure j l hsb hthis).2 (hcl.trans hnone)
+  · intro w hw j l
+    rw [evalExpr, hget, hcl, hw]
+
+/-! ## assignment replaces the value together with its source -/
+
+/-- **`h = o2.name; h(args); rest`** for a defined `h` (`hassign` — it exists whenever `h` resolves, `scopeAssign_of_get` —
+    whatever `h` held before, e.g. a method read from another object): afterwards `h` resolves to the function with
+    source `a2`, and the call binds `this` to `a2`.  The old source is neither kept nor is the new one dropped. -/
+theorem assign_replaces_provenance {n : Nat} {σ σ1 σ2 σ3 : State} {sc : List Addr} {o2 : Expr}
+    {args : List ListItem} {argVals : List SVal} {ov : SVal} {a2 fa : Addr} {m2 : ObjMap}
+    {name h : List Char} {s : Option Val} {fr : FuncRec} (lh lp lh2 lc : Loc) (rest : List Stmt)
+    (ho : evalExpr n σ sc o2 = .ok ov σ1) (hov : ov.v = .obj a2)
+    (hm : σ1.getObj a2 = some m2) (hk : objGet name m2 = some ⟨.func fa, s⟩)
+    (hh : h ≠ c!"_") (hassign : scopeAssign σ1 sc h ⟨.func fa, some (.obj a2)⟩ = some σ2)
+    (hargs : evalListItems (n + 1) σ2 sc args [] = .ok argVals σ3)
+    (hstill : scopeGet σ3 sc h = some ⟨.func fa, some (.obj a2)⟩)
+    (hfr : σ3.getFunc fa = some fr) (hok : arityOk fr.collect fr.args.length argVals.length = true) :
+    scopeGet σ2 sc h = some ⟨.func fa, some (.obj a2)⟩ ∧
+    evalStmts (n + 6) σ sc
+        (.Assign (.mk (.Var h) lh) (.mk (.Prop o2 name false) lp) ::
+         .Expr (.mk (.Call (.mk (.Var h) lh2) args) lc) :: rest) =
+      ((((evalBlock (n + 1) (callPlainVals σ3 fr argVals).2 fr.closure
+            (callBindings fr (callPlainVals σ3 fr argVals).1 (some (.obj a2)) lc) fr.stmts).mapErr
+          (Err.funcCall fr.name lc)).bind finishCall).bind fun _ σ5 => evalStmts (n + 4) σ5 sc rest) ∧
+    BodyThis (callPlainVals σ3 fr argVals).2 fr (callPlainVals σ3 fr argVals).1 (some (.obj a2)) lc (.obj a2) := by
+  refine ⟨scopeAssign_get hassign, ?_, bodyThis _ _ _ _ _⟩
+  have hst : evalStmt (n + 2) σ sc (.Assign (.mk (.Var h) lh) (.mk (.Prop o2 name false) lp)) = .ok .none σ2 := by
+    rw [evalStmt, prop_read_src lp ho hov hm hk]
+    simp only [Res.bind]
+    rw [bindNext_var]
+    simp [bindNextName, hh, hassign]
+  rw [evalStmts_cons_ok _ (evalStmt_mono hst (by simp) (by omega : n + 2 ≤ n + 5)), call_stmt_then,
+    (call_var_this lh2 lc hargs hstill hfr hok).1]
+
+
+/-- **`h := o1.k1; h = o2.k2; h(args); rest`**: `this` is `o2`'s object -/
+theorem assign_after_declare_replaces_provenance {n : Nat} {σ σ1 σ3 σ4 σ5 : State} {A0 : Addr} {sc' : List Addr}
+    {o1 o2 : Expr} {args : List ListItem} {argVals : List SVal} {ov1 ov2 : SVal} {a1 a2 f1 fa : Addr}
+    {m1 m2 : ObjMap} {ms : ScopeMap} {k1 k2 h : List Char} {s1 s2 : Option Val} {fr : FuncRec}
+    (lh lp lh' lp' lh2 lc : Loc) (rest : List Stmt)
+    (ho1 : evalExpr n σ (A0 :: sc') o1 = .ok ov1 σ1) (hov1 : ov1.v = .obj a1)
+    (hm1 : σ1.getObj a1 = some m1) (hk1 : objGet k1 m1 = some ⟨.func f1, s1⟩)
+    (hh : h ≠ c!"_") (hs : σ1.getScope A0 = some ms) (hfresh : scopeLookup h ms = none)
+    (ho2 : evalExpr n (σ1.set A0 (.scope ((h, ⟨.func f1, some (.obj a1)⟩, lh) :: ms))) (A0 :: sc') o2 = .ok ov2 σ3)
+    (hov2 : ov2.v = .obj a2) (hm2 : σ3.getObj a2 = some m2) (hk2 : objGet k2 m2 = some ⟨.func fa, s2⟩)
+    (hassign : scopeAssign σ3 (A0 :: sc') h ⟨.func fa, some (.obj a2)⟩ = some σ4)
+    (hargs : evalListItems (n + 1) σ4 (A0 :: sc') args [] = .ok argVals σ5)
+    (hstill : scopeGet σ5 (A0 :: sc') h = some ⟨.func fa, some (.obj a2)⟩)
+    (hfr : σ5.getFunc fa = some fr) (hok : arityOk fr.collect fr.args.length argVals.length = true) :
+    evalStmts (n + 7) σ (A0 :: sc')
+        (.Declare (.mk (.Var h) lh) (.mk (.Prop o1 k1 false) lp) ::
+         .Assign (.mk (.Var h) lh') (.mk (.Prop o2 k2 false) lp') ::
+         .Expr (.mk (.Call (.mk (.Var h) lh2) args) lc) :: rest) =
+      ((((evalBlock (n + 1) (callPlainVals σ5 fr argVals).2 fr.closure
+            (callBindings fr (callPlainVals σ5 fr argVals).1 (some (.obj a2)) lc) fr.stmts).mapErr
+          (Err.funcCall fr.name lc)).bind finishCall).bind fun _ σ6 => evalStmts (n + 4) σ6 (A0 :: sc') rest) ∧
+    BodyThis (callPlainVals σ5 fr argVals).2 fr (callPlainVals σ5 fr argVals).1 (some (.obj a2)) lc (.obj a2) := by
+  refine ⟨?_, bodyThis _ _ _ _ _⟩
+  have hd := declare_var_stmt lh (prop_read_src lp ho1 hov1 hm1 hk1) hh hs hfresh
+  rw [evalStmts_cons_ok _ (evalStmt_mono hd (by simp) (by omega : n + 2 ≤ n + 6))]
+  exact (assign_replaces_provenance lh' lp' lh2 lc rest ho2 hov2 hm2 hk2 hh hassign hargs hstill hfr hok).2.1
+
+/-- `fn x(…) { … }` binds `x` to a function value without a source -/
+theorem fn_stmt_value_has_no_source {n : Nat} {σ : State} {a : Addr} {sc : List Addr} {x : List Char} {m : ScopeMap}
+    (lx : Loc) (params : List Expr) (collect : Bool) (body : List Stmt)
+    (hv : validateArgs (n + 1) params [] = some none) (hx : x ≠ c!"_")
+    (hs : σ.getScope a = some m) (hf : scopeLookup x m = none) :
+    ∃ σ', evalStmt (n + 2) σ (a :: sc) (.Func x lx params collect body) = .ok .none σ' ∧
+      scopeGet σ' (a :: sc) x = some ⟨.func σ.heap.size, none⟩ ∧
+      σ'.getFunc σ.heap.size = some ⟨some x, params, collect, body, a :: sc⟩ ∧
+      ∀ j l, evalExpr (j + 1) σ' (a :: sc) (.mk (.Var x) l) = .ok ⟨.func σ.heap.size, none⟩ σ' := by
+  have hs' : (σ.alloc (.func ⟨some x, params, collect, body, a :: sc⟩)).2.getScope a = some m := by
+    rw [getScope_eq_some] at hs ⊢
+    rw [σ.alloc_heap_old _ (heap_lt_of_some hs)]; exact hs
+  have hg := scopeGet_declared sc x ⟨.func σ.heap.size, none⟩ lx hs'
+  refine ⟨_, func_stmt lx params collect body hv hx hs hf, hg, ?_, fun j l => src_preserved_var l hg⟩
+  have hne : σ.heap.size ≠ a := Nat.ne_of_gt (getScope_lt hs)
+  rw [getFunc_set_other _ hne]
+  exact getFunc_eq_some.mpr (σ.alloc_heap_new _)
+
+
+/-! ## examples for the end-to-end theorems -/
+
+/-- `return this.n;` -/
+def getBody : List Stmt :=
+  [.Return (1, 28) (.mk (.Prop (.mk (.Var c!"this") (1, 35)) c!"n" false) (1, 39))]
+/-- `fn() { return this.n; }`, closed over the global scope -/
+def frGet : FuncRec := ⟨none, [], false, getBody, [0]⟩
+/-- `fn g() { return this; }` -/
+def frG : FuncRec := ⟨some c!"g", [], false, [.Return (3, 9) (.mk (.Var c!"this") (3, 16))], [0]⟩
+/-- `fn ap(f) { return f(); }` -/
+def frAp : FuncRec :=
+  ⟨some c!"ap", [.mk (.Var c!"f") (4, 6)], false,
+    [.Return (4, 11) (.mk (.Call (.mk (.Var c!"f") (4, 18)) []) (4, 19))], [0]⟩
+
+/-- scope 0: `a ↦ object 1`, `b ↦ object 3`, `g ↦ func 4`, `ap ↦ func 5`;
+    object 1 = `{"get": fn() { return this.n; }, "n": 1}` (the function is cell 2);
+    object 3 = `{"get": a.get, "n": 2}` — its `get` is the same function, *stored with source `a`* -/
+def ms0 : ScopeMap :=
+  [(c!"a", SVal.plain (.obj 1), (1, 0)), (c!"b", SVal.plain (.obj 3), (2, 0)),
+   (c!"g", SVal.plain (.func 4), (3, 3)), (c!"ap", SVal.plain (.func 5), (4, 3))]
+
+def σm : State :=
+  ⟨#[.scope ms0,
+     .obj [(c!"get", ⟨.func 2, none⟩), (c!"n", SVal.plain (.int 1))],
+     .func frGet,
+     .obj [(c!"get", ⟨.func 2, some (.obj 1)⟩), (c!"n", SVal.plain (.int 2))],
+     .func frG,
+     .func frAp], []⟩
+
+def eA : Expr := .mk (.Var c!"a") (5, 0)
+def eB : Expr := .mk (.Var c!"b") (5, 0)
+
+/-- `b.get()`: `this` is `b` (object 3) although the function was defined in, and is stored with source, `a` -/
+example :
+    evalCall 4 σm [0] (.mk (.Prop eB c!"get" false) (5, 1)) [] (5, 5) =
+      ((evalBlock 3 σm [0] [(.mk (.Var c!"this") (5, 5), SVal.plain (.obj 3))] getBody).mapErr
+        (Err.funcCall none (5, 5))).bind finishCall ∧
+    BodyThis σm frGet [] (some (.obj 3)) (5, 5) (.obj 3) :=
+  method_call_this (n := 2) (σ1 := σm) (σ2 := σm) (argVals := []) (ov := SVal.plain (.obj 3)) (a := 3) (fa := 2)
+    (m := [(c!"get", ⟨.func 2, some (.obj 1)⟩), (c!"n", SVal.plain (.int 2))]) (s := some (.obj 1)) (fr := frGet)
+    (5, 1) (5, 5) (by with_unfolding_all rfl) (by with_unfolding_all rfl) rfl (by rfl) (by decide) (by rfl) (by decide)
+
+example : ∃ σ', evalCall 8 σm [0] (.mk (.Prop eB c!"get" false) (5, 1)) [] (5, 5) = .ok ⟨.int 2, some (.obj 3)⟩ σ' :=
+  ⟨_, by with_unfolding_all rfl⟩
+
+/-- `b["get"]()` -/
+example :
+    evalCall 5 σm [0] (.mk (.Index eB (.mk (.Str c!"get" none) (5, 2))) (5, 1)) [] (5, 5) =
+      ((evalBlock 4 σm [0] [(.mk (.Var c!"this") (5, 5), SVal.plain (.obj 3))] getBody).mapErr
+        (Err.funcCall none (5, 5))).bind finishCall ∧
+    BodyThis σm frGet [] (some (.obj 3)) (5, 5) (.obj 3) :=
+  method_call_this_index (n := 3) (σ1 := σm) (σ2 := σm) (σ3 := σm) (argVals := []) (ov := SVal.plain (.obj 3)) (a := 3)
+    (fa := 2) (name := c!"get")
+    (m := [(c!"get", ⟨.func 2, some (.obj 1)⟩), (c!"n", SVal.plain (.int 2))]) (s := some (.obj 1)) (fr := frGet)
+    (5, 1) (5, 5) (by with_unfolding_all rfl) (by with_unfolding_all rfl) rfl (by with_unfolding_all rfl) (by rfl)
+    (by decide) (by rfl) (by decide)
+
+/-- the body really gets there: the parameter scope is cell 6, and `this` reads as object 3 -/
+example : declareAll 2 (σm.alloc (.scope [])).2 [6, 0] (callBindings frGet [] (some (.obj 3)) (5, 5)) =
+    .ok () ((σm.alloc (.scope [])).2.set 6 (.scope [(c!"this", SVal.plain (.obj 3), (5, 5))])) := by
+  with_unfolding_all rfl
+
+
+/-- `h := a.get; h();` — `this` is `a` (object 1), the object read from, at the call two statements later -/
+example :
+    evalStmts 8 σm [0]
+        [.Declare (.mk (.Var c!"h") (6, 0)) (.mk (.Prop eA c!"get" false) (6, 6)),
+         .Expr (.mk (.Call (.mk (.Var c!"h") (7, 0)) []) (7, 1))] =
+      ((((evalBlock 3 (σm.set 0 (.scope ((c!"h", ⟨.func 2, some (.obj 1)⟩, (6, 0)) :: ms0))) [0]
+            [(.mk (.Var c!"this") (7, 1), SVal.plain (.obj 1))] getBody).mapErr
+          (Err.funcCall none (7, 1))).bind finishCall).bind fun _ σ5 => evalStmts 6 σ5 [0] []) ∧
+    BodyThis (σm.set 0 (.scope ((c!"h", ⟨.func 2, some (.obj 1)⟩, (6, 0)) :: ms0))) frGet [] (some (.obj 1)) (7, 1)
+      (.obj 1) :=
+  stored_method_keeps_this_var (n := 2) (σ1 := σm) (ov := SVal.plain (.obj 1)) (a := 1) (fa := 2) (ms := ms0)
+    (m := [(c!"get", ⟨.func 2, none⟩), (c!"n", SVal.plain (.int 1))]) (s := none) (fr := frGet) (argVals := [])
+    (σ3 := σm.set 0 (.scope ((c!"h", ⟨.func 2, some (.obj 1)⟩, (6, 0)) :: ms0)))
+    (6, 0) (6, 6) (7, 0) (7, 1) [] (by with_unfolding_all rfl) rfl (by rfl) (by decide) (by decide) (by rfl) (by decide)
+    (by with_unfolding_all rfl) (by rfl) (by rfl) (by decide)
+
+/-- `ap(b.get)` with `fn ap(f) { return f(); }` — inside `ap`, `f()` runs with `this = b` (object 3) -/
+example :
+    evalCall 8 σm [0] (.mk (.Var c!"ap") (8, 0)) [.mk (.mk (.Prop eB c!"get" false) (8, 4)) false] (8, 2) =
+      (((evalBlock 2 (apEntry σm c!"f" (4, 6) ⟨.func 2, some (.obj 3)⟩) [0]
+            [(.mk (.Var c!"this") (4, 19), SVal.plain (.obj 3))] getBody).mapErr
+          (Err.funcCall none (4, 19))).bind finishCall).mapErr (Err.funcCall (some c!"ap") (8, 2)) ∧
+    BodyThis (apEntry σm c!"f" (4, 6) ⟨.func 2, some (.obj 3)⟩) frGet [] (some (.obj 3)) (4, 19) (.obj 3) :=
+  stored_method_keeps_this_arg (n := 2) (σ1 := σm) (σ2 := σm) (ov := SVal.plain (.obj 3)) (a := 3) (fa := 2) (pa := 5)
+    (m := [(c!"get", ⟨.func 2, some (.obj 1)⟩), (c!"n", SVal.plain (.int 2))]) (s := some (.obj 1)) (fr := frGet)
+    (clo := [0]) (apName := some c!"ap")
+    (4, 6) (4, 11) (4, 18) (4, 19) (8, 4) (8, 2) (by with_unfolding_all rfl) rfl (by rfl) (by decide)
+    (by with_unfolding_all rfl) (by rfl) (by decide) (by rfl) (by decide)
+
+/-- `xs := [b.get]; xs[0]();` — the list element carries the source `b` -/
+example :
+    evalStmts 10 σm [0]
+        [.Declare (.mk (.Var c!"xs") (9, 0))
+           (.mk (.List [.mk (.mk (.Prop eB c!"get" false) (9, 8)) false] false) (9, 6)),
+         .Expr (.mk (.Call (.mk (.Index (.mk (.Var c!"xs") (10, 0)) (.mk (.Int 0) (10, 3))) (10, 2)) []) (10, 5))] =
+      ((((evalBlock 5 (listDeclared σm 0 c!"xs" (9, 0) ms0 ⟨.func 2, some (.obj 3)⟩) [0]
+            [(.mk (.Var c!"this") (10, 5), SVal.plain (.obj 3))] getBody).mapErr
+          (Err.funcCall none (10, 5))).bind finishCall).bind fun _ σ5 => evalStmts 8 σ5 [0] []) ∧
+    BodyThis (listDeclared σm 0 c!"xs" (9, 0) ms0 ⟨.func 2, some (.obj 3)⟩) frGet [] (some (.obj 3)) (10, 5) (.obj 3) :=
+  stored_method_keeps_this_list (n := 4) (σ1 := σm) (ov := SVal.plain (.obj 3)) (a := 3) (fa := 2) (ms := ms0)
+    (m := [(c!"get", ⟨.func 2, some (.obj 1)⟩), (c!"n", SVal.plain (.int 2))]) (s := some (.obj 1)) (fr := frGet)
+    (argVals := []) (sx := none) (i := 0) (items := [⟨.func 2, some (.obj 3)⟩])
+    (σ3 := listDeclared σm 0 c!"xs" (9, 0) ms0 ⟨.func 2, some (.obj 3)⟩)
+    (σ4 := listDeclared σm 0 c!"xs" (9, 0) ms0 ⟨.func 2, some (.obj 3)⟩)
+    (9, 0) (9, 6) (9, 8) (10, 0) (10, 2) (10, 5) [] (by with_unfolding_all rfl) rfl (by rfl) (by decide) (by decide)
+    (by rfl) (by decide) (by with_unfolding_all rfl) (by rfl) (by with_unfolding_all rfl) (by rfl) (by rfl) (by rfl)
+    (by decide)
+
+/-- `g()` with `fn g() { return this; }` bound by a `fn` statement: no `this` is declared, the closure chain (the
+    global scope) has none, so the body's `this` is undefined -/
+example :
+    evalCall 3 σm [0] (.mk (.Var c!"g") (11, 0)) [] (11, 1) =
+      ((evalBlock 2 σm [0] [] frG.stmts).mapErr (Err.funcCall (some c!"g") (11, 1))).bind finishCall ∧
+    ∃ σb, evalBlock 3 σm [0] [] frG.stmts = evalStmts 2 σb [6, 0] frG.stmts ∧
+      scopeGet σb [6, 0] c!"this" = none ∧
+      evalExpr 1 σb [6, 0] (.mk (.Var c!"this") (3, 16)) = errAt (3, 16) (Leaf.Undefined c!"this") σb := by
+  have h := plain_function_has_no_this (n := 2) (σ := σm) (σ1 := σm) (σ2 := σm) (sc := [0])
+    (f := .mk (.Var c!"g") (11, 0)) (args := []) (argVals := []) (fa := 4) (fr := frG) (11, 1)
+    (by with_unfolding_all rfl) (by with_unfolding_all rfl) (by rfl) (by decide)
+  refine ⟨h.1, ?_⟩
+  obtain ⟨σb, h1, h2, h3, _⟩ := plain_function_plain_params (σ2 := σm) (argVals := []) (fr := frG) (by decide) [] rfl
+    trivial (fun _ hp => nomatch hp) (fun b hb => by simp [frG] at hb; subst hb; decide) 2 (by decide)
+  exact ⟨σb, h1, h2.trans (by rfl), h3 (by rfl) 0 (3, 16)⟩
+
+example : ∃ σ', evalCall 8 σm [0] (.mk (.Var c!"g") (11, 0)) [] (11, 1) =
+    .err (.funcCall (some c!"g") (11, 1) (Err.at (3, 16) (Leaf.Undefined c!"this"))) σ' :=
+  ⟨_, by with_unfolding_all rfl⟩
+
+
+/-- the parameter pattern `[x, y]` -/
+def patXY : Expr := .mk (.List [.mk (.mk (.Var c!"x") (1, 6)) false, .mk (.mk (.Var c!"y") (1, 9)) false] false) (1, 5)
+/-- `σm` with one more cell: the list `[1, 2]` (address 6) -/
+def σl : State := (σm.alloc (.list [SVal.plain (.int 1), SVal.plain (.int 2)])).2
+
+/-- binding `[x, y]` to the list `[1, 2]` in the fresh cell 7 succeeds, and `this` still resolves through the closure -/
+example : ∃ σb, declareAll 6 (σl.alloc (.scope [])).2 [7, 0] ([patXY].zip [SVal.plain (.list 6)]) = .ok () σb ∧
+    scopeGet σb [7, 0] c!"this" = scopeGet σb [0] c!"this" ∧ scopeGet σb [7, 0] c!"y" = some (SVal.plain (.int 2)) := by
+  have hd : declareAll 6 (σl.alloc (.scope [])).2 [7, 0] ([patXY].zip [SVal.plain (.list 6)]) =
+      .ok () ((σl.alloc (.scope [])).2.set 7 (.scope [(c!"y", SVal.plain (.int 2), (1, 9)), (c!"x", SVal.plain (.int 1), (1, 6))])) := by
+    with_unfolding_all rfl
+  refine ⟨_, hd, ?_, by rfl⟩
+  exact (body_without_this (σ3 := σl) (closure := [0]) (params := [patXY]) (pv := [SVal.plain (.list 6)])
+    (by intro p hp; simp at hp; subst hp; decide +kernel) hd).1
+
+/-- `h := a.get; h = b.get; h();` — the call binds `this` to `b` (object 3): the source `a` stored by the declaration
+    is neither kept nor merely dropped -/
+example :
+    evalStmts 9 σm [0]
+        [.Declare (.mk (.Var c!"h") (6, 0)) (.mk (.Prop eA c!"get" false) (6, 6)),
+         .Assign (.mk (.Var c!"h") (7, 0)) (.mk (.Prop eB c!"get" false) (7, 5)),
+         .Expr (.mk (.Call (.mk (.Var c!"h") (8, 0)) []) (8, 1))] =
+      ((((evalBlock 3 (σm.set 0 (.scope ((c!"h", ⟨.func 2, some (.obj 3)⟩, (6, 0)) :: ms0))) [0]
+            [(.mk (.Var c!"this") (8, 1), SVal.plain (.obj 3))] getBody).mapErr
+          (Err.funcCall none (8, 1))).bind finishCall).bind fun _ σ6 => evalStmts 6 σ6 [0] []) ∧
+    BodyThis (σm.set 0 (.scope ((c!"h", ⟨.func 2, some (.obj 3)⟩, (6, 0)) :: ms0))) frGet [] (some (.obj 3)) (8, 1)
+      (.obj 3) := by
+  have h := assign_after_declare_replaces_provenance (n := 2) (σ := σm) (σ1 := σm) (A0 := 0) (sc' := [])
+    (o1 := eA) (o2 := eB) (k1 := c!"get") (k2 := c!"get") (h := c!"h") (args := [])
+    (ov1 := SVal.plain (.obj 1)) (ov2 := SVal.plain (.obj 3)) (a1 := 1) (a2 := 3) (f1 := 2) (fa := 2) (ms := ms0)
+    (m1 := [(c!"get", ⟨.func 2, none⟩), (c!"n", SVal.plain (.int 1))]) (s1 := none)
+    (m2 := [(c!"get", ⟨.func 2, some (.obj 1)⟩), (c!"n", SVal.plain (.int 2))]) (s2 := some (.obj 1))
+    (fr := frGet) (argVals := [])
+    (σ3 := σm.set 0 (.scope ((c!"h", ⟨.func 2, some (.obj 1)⟩, (6, 0)) :: ms0)))
+    (σ4 := (σm.set 0 (.scope ((c!"h", ⟨.func 2, some (.obj 1)⟩, (6, 0)) :: ms0))).set 0
+      (.scope ((c!"h", ⟨.func 2, some (.obj 3)⟩, (6, 0)) :: ms0)))
+    (σ5 := (σm.set 0 (.scope ((c!"h", ⟨.func 2, some (.obj 1)⟩, (6, 0)) :: ms0))).set 0
+      (.scope ((c!"h", ⟨.func 2, some (.obj 3)⟩, (6, 0)) :: ms0)))
+    (6, 0) (6, 6) (7, 0) (7, 5) (8, 0) (8, 1) [] (by with_unfolding_all rfl) rfl (by rfl) (by decide) (by decide)
+    (by rfl) (by decide) (by with_unfolding_all rfl) rfl (by rfl) (by decide) (by with_unfolding_all rfl)
+    (by with_unfolding_all rfl) (by rfl) (by rfl) (by decide)
+  exact h
+
+/-! ### the same through the whole pipeline (`run`: lex, parse, evaluate) -/
+
+def progObjs : List Char :=
+  c!"a := {\"n\": 1, \"get\": fn() { return this.n; }};\nb := {\"n\": 2, \"get\": a.get};\n"
+
+/-- (1) a borrowed method sees the object it is called on, through `.` and through `[…]` -/
+example : (run 100 c!"t.sd" (progObjs ++ c!"print(b.get());\nprint(b[\"get\"]());\nprint(a.get());\n")).out =
+    [c!"2", c!"2", c!"1"] := by decide +kernel
+
+/-- (2) a method value keeps the object it was read from — also when the variable it was read through is
+    reassigned afterwards — through a variable, a list element and an argument -/
+example : (run 100 c!"t.sd" (progObjs ++
+    c!"o := a;\nh := o.get;\no = b;\nprint(h());\nxs := [b.get];\nprint(xs[0]());\nfn ap(f) { return f(); }\nprint(ap(b.get));\n")).out =
+    [c!"1", c!"2", c!"2"] := by decide +kernel
+
+/-- (3) a plain function has no `this` of its own: undefined at top level, the enclosing method's inside one -/
+example : (run 100 c!"t.sd" c!"fn f() { return this; }\nprint(f());\n").stderr =
+    c!"t.sd:1:17: in 'f': 'this' is not defined\nStacktrace:\n  t.sd:2:7: in '<root>'\n" := by decide +kernel
+
+example : (run 100 c!"t.sd"
+    c!"o := {\"n\": 5, \"m\": fn() { fn inner() { return this.n; }; return inner(); }};\nprint(o.m());\n").out =
+    [c!"5"] := by decide +kernel
+
+/-- (3) destructuring parameters make no difference — unless the pattern itself binds the name `this` -/
+example : (run 100 c!"t.sd" c!"fn f([x, y]) { return this; }\nprint(f([1, 2]));\n").stderr =
+    c!"t.sd:1:23: in 'f': 'this' is not defined\nStacktrace:\n  t.sd:2:7: in '<root>'\n" := by decide +kernel
+
+example : (run 100 c!"t.sd"
+    c!"o := {\"n\": 5, \"m\": fn() { fn inner([x, {y}]) { return this.n + x + y; }; return inner([1, {\"y\": 2}]); }};\nprint(o.m());\n").out =
+    [c!"8"] := by decide +kernel
+
+example : (run 100 c!"t.sd" c!"fn f([this]) { return this; }\nprint(f([7]));\n").out = [c!"7"] := by decide +kernel
+
+/-- the pattern `[x, {y}]` binds `x` and `y`, not `this` -/
+example : c!"this" ∉ patVars (.mk (.List [.mk (.mk (.Var c!"x") (1, 6)) false,
+    .mk (.mk (.Object [.Single (.mk (.Var c!"y") (1, 10)) false false]) (1, 9)) false] false) (1, 5)) := by
+  decide +kernel
+
+/-- (4) assignment replaces the source together with the value -/
+example : (run 100 c!"t.sd" (progObjs ++ c!"h := a.get;\nh = b.get;\nprint(h());\nh = a.get;\nprint(h());\n")).out =
+    [c!"2", c!"1"] := by decide +kernel
 
 end Seed.C14
